@@ -80,6 +80,12 @@ class Mk:
       return ''.join(chr(c) for c in d['str'])
     if 'enum' in d:
       return stubmod.Color[d['enum']]
+    if 'enum2' in d:
+      cls, name = d['enum2']
+      return getattr(stubmod, cls)[name]
+    if 'sub' in d:
+      cls, v = d['sub']
+      return getattr(stubmod, cls)(v)
     if 'novalue' in d:
       return fdl.NO_VALUE
     if 'const' in d:
@@ -151,8 +157,13 @@ def gen_value(rng, big):
       raw = bytes(rng.randrange(256) for _ in range(n))
       cut = rng.randint(0, len(raw))
       return {'bytes': (raw[:cut] + frag + raw[cut:]).hex()}
-    if r < 0.86:
+    if r < 0.82:
       return {'enum': rng.choice(['RED', 'GREEN', 'BLUE'])}
+    if r < 0.855:
+      return {'enum2': rng.choice([['Level', 'LOW'], ['Level', 'HIGH'], ['Mode', 'FAST'],
+                                   ['Mode', 'SLOW'], ['Perm', 'R'], ['Perm', 'W']])}
+    if r < 0.865:
+      return {'sub': rng.choice([['MyInt', 7], ['MyStr', 'seven']])}
     if r < 0.92 and not hashable_only:
       return {'novalue': 1}
     if r < 0.96 and not hashable_only:
@@ -394,7 +405,8 @@ def symbols_reachable(root):
                       types.MethodType, types.ModuleType)):
       out.append(v)
       return
-    if isinstance(v, stubmod.Color):
+    import enum as _e
+    if isinstance(v, _e.Enum):
       out.append(v)
       return
     if getattr(v, '_fsim_plain', False):
@@ -545,7 +557,7 @@ def V(clause, msg, **extra):
 
 def leaf_kinds(d, acc):
   if isinstance(d, dict):
-    for k in ('bytes', 'str', 'float', 'int', 'enum', 'set', 'fset', 'slice',
+    for k in ('bytes', 'str', 'float', 'int', 'enum', 'enum2', 'sub', 'set', 'fset', 'slice',
               'nt', 'ddict', 'kdict', 'plain', 'tv', 'novalue', 'const', 'node',
               'share'):
       if k in d:
